@@ -41,6 +41,7 @@ def families(tier):
         {'name': 'cache-dir', 'params': {}, 'weight': 1},
         {'name': 'read-error', 'params': {}, 'weight': 2},
         {'name': 'doc-class', 'params': {}, 'weight': 2},
+        {'name': 'bytes', 'params': {}, 'weight': 2},
     ]
     if tier == 'thorough':
         base += [dict(f, params={'hist': 'BMB'}) for f in base]
@@ -125,7 +126,109 @@ def identical(eng, w, pre, sig):
     eng.check('C15.temp-dir-left', not w.tmp_leftovers(), sig)
 
 
+def bytes_corpus(eng, P):
+    """Byte-level corruption classes of a real cache file, through the real gzip / zlib / json: truncation at every
+    offset class (header, deflate body, each of the 8 trailer bytes), a flipped byte at every position, appended
+    garbage.  Runs on the real OS (the symbolic stub abstracts from bytes); the corruption kind and position are holes,
+    so every position is reached.  Validates the stub's outcome set: a corrupted file is refused or is a valid document."""
+    import os
+    import shutil
+    import tempfile
+    from file_builder import FileBuilder
+    base = getattr(eng, 'sandbox', None)
+    own = base is None
+    if own:
+        base = tempfile.mkdtemp(prefix='verif_c15_', dir=os.environ.get('VERIF_TMP') or None)
+    try:
+        root = os.path.join(base, 'b')
+        os.makedirs(os.path.join(root, 'out'))
+        cache = os.path.join(root, 'cache')
+        target = os.path.join(root, 'out', 'f')
+        calls = []
+
+        def bf(b, fn):
+            calls.append('bf')
+            with open(fn, 'w') as f:
+                f.write('data')
+            return [1, 'two', {'k': None}]
+
+        def rootf(b):
+            calls.append('root')
+            return b.build_file(target, 'bf', bf)
+
+        FileBuilder.build(cache, 'n', rootf)
+        good = open(cache, 'rb').read()
+        n = len(good)
+        kind = ['truncate', 'flip', 'append'][eng.choose('ckind', 3)]
+        if kind == 'truncate':
+            # every cut of the last 24 bytes (trailer and end of the deflate stream), then classes of earlier offsets
+            k = eng.choose('off', 33)
+            off = n - 24 + k if k < 24 else [0, 1, 2, 5, 10, 11, n // 4, n // 2, 3 * n // 4][k - 24]
+            data = good[:off]
+        elif kind == 'flip':
+            k = eng.choose('off', 80)           # 64 evenly spaced positions and each of the last 16 bytes
+            off = (k * n) // 64 if k < 64 else n - 16 + (k - 64)
+            data = good[:off] + bytes([good[off] ^ 0x5a]) + good[off + 1:]
+        else:
+            off = eng.choose('off', 3)
+            data = good + [b'x', b'\x00' * 8, good][off]
+        with open(cache, 'wb') as f:
+            f.write(data)
+        eng.path_info.update({'corruption': kind, 'offset': off, 'cache_bytes': n})
+        api = ['build', 'clean'][eng.choose('api', 2)]
+
+        def snap():
+            out = {}
+            for d, sd, fl in os.walk(root):
+                for x in sd:
+                    out[os.path.join(d, x)] = 'D'
+                for x in fl:
+                    p = os.path.join(d, x)
+                    st = os.stat(p)
+                    out[p] = (st.st_ino, st.st_mtime_ns, open(p, 'rb').read())
+            return out
+
+        pre = snap()
+        tmpbefore = set(os.listdir(tempfile.gettempdir()))
+        del calls[:]
+        try:
+            if api == 'build':
+                FileBuilder.build(cache, 'n', rootf)
+            else:
+                FileBuilder.clean(cache, 'n')
+            refused = False
+        except Exception as e:
+            refused = True
+        sig = ('bytes', api, kind)
+        if not refused:
+            # accepted: only legitimate if the bytes still are a complete, valid gzip stream of the same document
+            import gzip as g
+            import json as j
+            try:
+                ok = j.loads(g.decompress(data).decode()) == j.loads(g.decompress(good).decode())
+            except Exception:
+                ok = False
+            eng.check('C15.corrupted-cache-accepted', ok, sig + ('off-class:%s' % ('trailer' if off >= n - 8 else 'body'),),
+                      info={'corruption': kind, 'offset': off, 'of': n, 'api': api})
+            return
+        eng.witness('refused')
+        eng.witness('refused-unreadable-cache')
+        if api == 'clean':
+            eng.witness('refused-clean')
+        eng.check('C15.user-function-called', not calls, sig)
+        post = snap()
+        eng.check('C15.tree-changed', pre == post, sig, info={'corruption': kind, 'offset': off})
+        left = [x for x in set(os.listdir(tempfile.gettempdir())) - tmpbefore if x.startswith('file_builder_')]
+        eng.check('C15.temp-dir-left', not left, sig)
+        eng.sample({'family': 'bytes', 'corruption': kind, 'offset': off, 'cache_bytes': n, 'api': api, 'refused': refused})
+    finally:
+        if own:
+            shutil.rmtree(base, ignore_errors=True)
+
+
 def harness(eng, fam, P):
+    if fam == 'bytes':
+        return bytes_corpus(eng, P)
     from file_builder import FileBuilder
     bodies = skeleton(eng, 'A5b', {'modes': ['ok'], 'hist': 'B'})
     prog = Program(eng, bodies[0])
